@@ -54,6 +54,7 @@ LamRt(e) == IF "rt" \in DOMAIN e /\ e.rt = "Bool" THEN "Bool" ELSE "Int"
 P(e, ind) ==
   CASE e.k = "int"   -> ToString(e.v)
     [] e.k = "str"   -> Lit(e.v)
+    [] e.k = "int64" -> e.t          \* an integer literal given by its text (beyond TLC's 32-bit integers)
     [] e.k = "bool"  -> IF e.v THEN "True" ELSE "False"
     [] e.k = "unit"  -> "Unit"
     [] e.k = "var"   -> e.n
@@ -116,6 +117,7 @@ CallOf(name, args) == "(Call (Variable " \o name \o ") " \o args \o ")"
 S(e) ==
   CASE e.k = "int"   -> "(IntLiteral " \o ToString(e.v) \o ")"
     [] e.k = "str"   -> "(StringLiteral \"" \o EscFrom(e.v, 1) \o "\")"
+    [] e.k = "int64" -> "(IntLiteral " \o e.t \o ")"
     [] e.k = "bool"  -> "(Variable " \o (IF e.v THEN "True" ELSE "False") \o ")"
     [] e.k = "unit"  -> "(Variable Unit)"
     [] e.k = "var"   -> "(Variable " \o e.n \o ")"
@@ -192,7 +194,10 @@ StrE(s) == [k |-> "str", v |-> s]
 ParenE(e) == [k |-> "paren", e |-> e]
 CallE(f, args) == [k |-> "call", f |-> f, args |-> args]
 MCallE(r, m, args) == [k |-> "mcall", recv |-> r, m |-> m, args |-> args]
-Leaves == {IntE(1), IntE(20), IntE(-3), VarE("a"), VarE("b"), StrE("s"), [k |-> "bool", v |-> TRUE]}
+\* the ends of the 64-bit range: the most negative integer has no positive counterpart, so its literal
+\* cannot be read as "minus" applied to a magnitude
+Leaves == {IntE(1), IntE(20), IntE(-3), VarE("a"), VarE("b"), StrE("s"), [k |-> "bool", v |-> TRUE],
+           [k |-> "int64", t |-> "-9223372036854775808"], [k |-> "int64", t |-> "9223372036854775807"]}
 SampleOps == {"+", "<", "^"}
 RECURSIVE ExprTrees(_)
 ExprTrees(d) ==
@@ -207,7 +212,7 @@ ExprTrees(d) ==
          \cup {[k |-> "list", xs |-> <<e, IntE(3)>>] : e \in T}
          \cup {[k |-> "tuple", xs |-> <<e>>] : e \in T}
          \cup {[k |-> "ctor", n |-> "Some", args |-> <<e>>] : e \in T}
-         \cup {[k |-> "dot", e |-> e, f |-> "x"] : e \in T \ {x \in T : x.k \in {"int", "bin"}}}   \* `1.x` lexes as a float start, `a + b.x` groups differently
+         \cup {[k |-> "dot", e |-> e, f |-> "x"] : e \in T \ {x \in T : x.k \in {"int", "int64", "bin"}}}   \* `1.x` lexes as a float start, `a + b.x` groups differently
          \cup {[k |-> "slit", n |-> "P1", fs |-> <<[n |-> "x", e |-> e], [n |-> "y", e |-> StrE("s")]>>] : e \in T}
          \cup {[k |-> "dlit", kvs |-> <<[key |-> StrE("s"), val |-> e], [key |-> e, val |-> IntE(1)]>>] : e \in T}
          \cup {[k |-> "dlit", kvs |-> <<>>]}
